@@ -193,12 +193,22 @@ def judge(ctx, spec, positions=POSITIONS):
     import soundevent.geometry as G
 
     try:
-        g = geoms.build(spec)
+        g = geoms.build(spec) if ctx.evaluations % 4 else geoms.build_derived(spec, ctx.rng)
     except Exception as e:
         ctx.note("generator_produced_invalid_geometry")
         return
     for name, fn, args in (("bounds", G.compute_bounds, ()), ("convert", G.geometry_to_shapely, ()), ("features", G.compute_geometric_features, ())):
         try:
+            out = fn(g, *args)
+            # a caller is free to edit what it got back; the next call (judged by the same monitor) must not care
+            if isinstance(out, list):
+                out.append(out[0] if out else None)
+                del out[0]
+                if out and hasattr(out[0], "value"):
+                    try:
+                        out[0].value = 12345.0
+                    except Exception:
+                        pass
             fn(g, *args)
         except Exception as e:
             ctx.violate_exc(f"{name}:raises", f"{name}:raises:{spec['type']}:{type(e).__name__}", e, spec={"kind": name, "g": spec})
